@@ -1,4 +1,264 @@
-//! E4: abort oracle (child side). Filled in with C16 / C03.
-pub fn child_main(_args: &[String]) -> i32 {
-    2
+//! E4 — abort oracle. Operations whose failure mode is a process abort (stack overflow) or a
+//! hang are run by `mc child <casefile>` in a child process, each inside a thread with an
+//! explicitly sized stack. The child prints `BEGIN i` / `END i <result>`; when it dies the parent
+//! knows the case, records the signal, and restarts a child for the remaining cases. A per-case
+//! wall-clock watchdog turns "fails to return" into an observation as well.
+
+use serde_json::{json, Value as J};
+use std::io::{BufRead, BufReader, Write};
+use std::process::{Command, Stdio};
+use std::sync::mpsc;
+use std::time::Duration;
+
+#[derive(Clone, Debug, PartialEq)]
+pub enum ChildObs {
+    /// the operation returned; payload is the child's own description ("ok …", "err …")
+    Returned(String),
+    /// the operation panicked (unwound)
+    Panicked(String),
+    /// the process died: signal number or exit code
+    Died(String),
+    /// no answer within the watchdog period
+    TimedOut(u64),
+}
+
+impl ChildObs {
+    pub fn short(&self) -> String {
+        match self {
+            ChildObs::Returned(s) => format!("returned: {}", crate::util::trunc(s, 100)),
+            ChildObs::Panicked(s) => format!("panicked: {}", crate::util::trunc(s, 100)),
+            ChildObs::Died(s) => format!("process died ({})", s),
+            ChildObs::TimedOut(s) => format!("no answer within {} s", s),
+        }
+    }
+}
+
+/// Run `cases` in child processes (`parallel` at a time). Returns one observation per case.
+pub fn run_children(cases: &[J], parallel: usize, timeout_s: u64, tag: &str) -> Vec<ChildObs> {
+    let n = cases.len();
+    let chunk = ((n + parallel - 1) / parallel.max(1)).max(1);
+    let mut out: Vec<Option<ChildObs>> = vec![None; n];
+    std::thread::scope(|s| {
+        let mut hs = Vec::new();
+        for (ci, slice) in cases.chunks(chunk).enumerate() {
+            let tag = format!("{}-{}", tag, ci);
+            hs.push((ci * chunk, s.spawn(move || run_chunk(slice, timeout_s, &tag))));
+        }
+        for (base, h) in hs {
+            let res = h.join().unwrap_or_else(|_| {
+                eprintln!("MACHINERY: child supervisor thread panicked");
+                std::process::exit(2)
+            });
+            for (i, r) in res.into_iter().enumerate() {
+                out[base + i] = Some(r);
+            }
+        }
+    });
+    out.into_iter().map(|o| o.expect("observation for every case")).collect()
+}
+
+fn run_chunk(cases: &[J], timeout_s: u64, tag: &str) -> Vec<ChildObs> {
+    let mut results: Vec<ChildObs> = Vec::with_capacity(cases.len());
+    // children run the build with optimisations off when it is available: tail-call elimination
+    // in optimised builds can hide per-element recursion that users of debug builds would hit
+    let exe = match std::env::var("MC_CHILD_BIN") {
+        Ok(p) if std::path::Path::new(&p).exists() => std::path::PathBuf::from(p),
+        _ => std::env::current_exe().expect("current exe"),
+    };
+    let dir = std::env::var("VERIF_DIR").unwrap_or_else(|_| "/verif".into());
+    let _ = std::fs::create_dir_all(format!("{}/target", dir));
+    while results.len() < cases.len() {
+        let start = results.len();
+        let file = format!("{}/target/childcases-{}-{}-{}.json", dir, std::process::id(), tag, start);
+        std::fs::write(&file, serde_json::to_string(&cases[start..]).unwrap()).expect("write case file");
+        let mut child = Command::new(&exe).arg("child").arg(&file).stdout(Stdio::piped()).stderr(Stdio::null()).stdin(Stdio::null()).spawn().expect("spawn child");
+        let stdout = child.stdout.take().unwrap();
+        let (tx, rx) = mpsc::channel::<String>();
+        let reader = std::thread::spawn(move || {
+            let br = BufReader::new(stdout);
+            for line in br.lines() {
+                match line {
+                    Ok(l) => {
+                        if tx.send(l).is_err() {
+                            break;
+                        }
+                    }
+                    Err(_) => break,
+                }
+            }
+        });
+        let mut in_progress: Option<usize> = None;
+        let mut killed_for_timeout = false;
+        loop {
+            match rx.recv_timeout(Duration::from_secs(timeout_s)) {
+                Ok(line) => {
+                    if let Some(rest) = line.strip_prefix("BEGIN ") {
+                        in_progress = rest.trim().parse::<usize>().ok();
+                    } else if let Some(rest) = line.strip_prefix("END ") {
+                        let mut it = rest.splitn(3, ' ');
+                        let _idx = it.next();
+                        let kind = it.next().unwrap_or("");
+                        let payload = it.next().unwrap_or("").to_string();
+                        results.push(if kind == "panic" { ChildObs::Panicked(payload) } else { ChildObs::Returned(format!("{} {}", kind, payload)) });
+                        in_progress = None;
+                    }
+                }
+                Err(mpsc::RecvTimeoutError::Timeout) => {
+                    let _ = child.kill();
+                    killed_for_timeout = true;
+                    break;
+                }
+                Err(mpsc::RecvTimeoutError::Disconnected) => break,
+            }
+        }
+        let status = child.wait().ok();
+        let _ = reader.join();
+        let _ = std::fs::remove_file(&file);
+        if results.len() < cases.len() {
+            // the child stopped before finishing: the case in progress (or the next one) is the culprit
+            let _ = in_progress;
+            if killed_for_timeout {
+                results.push(ChildObs::TimedOut(timeout_s));
+            } else {
+                let desc = match status {
+                    Some(st) => {
+                        #[cfg(unix)]
+                        {
+                            use std::os::unix::process::ExitStatusExt;
+                            match st.signal() {
+                                Some(sig) => format!("signal {}", sig),
+                                None => format!("exit code {:?}", st.code()),
+                            }
+                        }
+                        #[cfg(not(unix))]
+                        {
+                            format!("exit {:?}", st.code())
+                        }
+                    }
+                    None => "unknown".into(),
+                };
+                results.push(ChildObs::Died(desc));
+            }
+        }
+    }
+    results
+}
+
+// ---------------------------------------------------------------------------------------------
+// child side
+
+/// Openers for pathological nesting (C03): (text of the opener, does it nest?)
+pub const OPENERS: &[&str] = &["(", "[", "#(", "'", "`", ",", ",@", "(a . ", "#u8("];
+
+pub fn build_parse_input(c: &J) -> Vec<u8> {
+    let n = c["n"].as_u64().unwrap_or(0) as usize;
+    let mut out = Vec::with_capacity(n + 16);
+    match c["family"].as_str().unwrap_or("") {
+        "openers" => {
+            let pat: Vec<usize> = c["pattern"].as_array().map(|a| a.iter().map(|x| x.as_u64().unwrap_or(0) as usize).collect()).unwrap_or_default();
+            let mut i = 0;
+            while out.len() < n {
+                out.extend_from_slice(OPENERS[pat[i % pat.len()]].as_bytes());
+                i += 1;
+            }
+        }
+        "run" => {
+            // prefix + unit repeated + suffix
+            let prefix = c["prefix"].as_str().unwrap_or("");
+            let unit = c["unit"].as_str().unwrap_or("a");
+            let suffix = c["suffix"].as_str().unwrap_or("");
+            out.extend_from_slice(prefix.as_bytes());
+            while out.len() < n {
+                out.extend_from_slice(unit.as_bytes());
+            }
+            out.extend_from_slice(suffix.as_bytes());
+            if let Some(h) = c["suffix_hex"].as_str() {
+                out.extend_from_slice(&crate::rv::unhex(h));
+            }
+        }
+        _ => {}
+    }
+    out
+}
+
+fn child_parse(c: &J) -> String {
+    let input = build_parse_input(c);
+    let opts = if c["opts"].as_str() == Some("elisp") { lexpr::parse::Options::elisp() } else { lexpr::parse::Options::default() };
+    let src = c["src"].as_str().unwrap_or("slice").to_string();
+    let api = c["api"].as_str().unwrap_or("value").to_string();
+    let r: Result<String, String> = crate::util::guard(|| {
+        // results are leaked: dropping long values is C16's business, not the parser's
+        let describe_v = |r: Result<lexpr::Value, lexpr::parse::Error>| match r {
+            Ok(v) => {
+                std::mem::forget(v);
+                "ok value".to_string()
+            }
+            Err(e) => format!("err {}", e),
+        };
+        let describe_d = |r: Result<lexpr::datum::Datum, lexpr::parse::Error>| match r {
+            Ok(d) => {
+                std::mem::forget(d);
+                "ok datum".to_string()
+            }
+            Err(e) => format!("err {}", e),
+        };
+        match (src.as_str(), api.as_str()) {
+            ("str", "value") => match std::str::from_utf8(&input) {
+                Ok(s) => describe_v(lexpr::from_str_custom(s, opts)),
+                Err(_) => describe_v(lexpr::from_slice_custom(&input, opts)),
+            },
+            ("str", _) => match std::str::from_utf8(&input) {
+                Ok(s) => describe_d(lexpr::datum::from_str_custom(s, opts)),
+                Err(_) => describe_d(lexpr::datum::from_slice_custom(&input, opts)),
+            },
+            ("reader", "value") => describe_v(lexpr::from_reader_custom(&input[..], opts)),
+            ("reader", _) => describe_d(lexpr::datum::from_reader_custom(&input[..], opts)),
+            (_, "value") => describe_v(lexpr::from_slice_custom(&input, opts)),
+            (_, _) => describe_d(lexpr::datum::from_slice_custom(&input, opts)),
+        }
+    });
+    match r {
+        Ok(s) => s,
+        Err(p) => format!("panic {}", p),
+    }
+}
+
+pub fn child_main(args: &[String]) -> i32 {
+    let file = match args.first() {
+        Some(f) => f,
+        None => return 2,
+    };
+    let text = match std::fs::read_to_string(file) {
+        Ok(t) => t,
+        Err(_) => return 2,
+    };
+    let cases: Vec<J> = match serde_json::from_str(&text) {
+        Ok(c) => c,
+        Err(_) => return 2,
+    };
+    let stdout = std::io::stdout();
+    for (i, c) in cases.iter().enumerate() {
+        {
+            let mut o = stdout.lock();
+            let _ = writeln!(o, "BEGIN {}", i);
+            let _ = o.flush();
+        }
+        let stack = c["stack"].as_u64().unwrap_or(2 << 20) as usize;
+        let c2 = c.clone();
+        let h = std::thread::Builder::new().stack_size(stack).spawn(move || match c2["kind"].as_str().unwrap_or("") {
+            "parse" => child_parse(&c2),
+            #[cfg(feature = "full")]
+            "listop" => crate::props::c16::child_listop(&c2),
+            other => format!("err unknown case kind {}", other),
+        });
+        let res = match h {
+            Ok(h) => h.join().unwrap_or_else(|_| "panic (thread)".to_string()),
+            Err(e) => format!("err cannot spawn thread: {}", e),
+        };
+        let mut o = stdout.lock();
+        let _ = writeln!(o, "END {} {}", i, res.replace('\n', " "));
+        let _ = o.flush();
+    }
+    let _ = json!(null);
+    0
 }
